@@ -28,6 +28,10 @@ type Plan struct {
 	// EOFWithData delivers io.EOF together with the last data bytes instead of
 	// on a separate read.
 	EOFWithData bool `json:"eof_with_data,omitempty"`
+	// ErrAfter >= 0 with ErrNo set: after that many bytes have been delivered
+	// the next read fails with the errno (the stream breaks; it is not an EOF).
+	ErrNo    string `json:"errno,omitempty"`
+	ErrAfter int    `json:"err_after,omitempty"`
 }
 
 type Stream struct {
